@@ -210,3 +210,18 @@ def full_match_guard(atoms):
                 if not pol: return True
             elif pol: return True
     return False
+
+def dict_literal_of(expr, module_tree, depth=0):
+    """the dict display a table expression denotes: the display itself, a module-level name bound to one, dict(NAME), NAME.copy(), {**NAME}"""
+    if depth > 4 or expr is None: return None
+    if isinstance(expr, ast.Dict):
+        if len(expr.keys) == 1 and expr.keys[0] is None: return dict_literal_of(expr.values[0], module_tree, depth + 1)
+        return expr
+    if isinstance(expr, ast.Name):
+        for n in module_tree.body:
+            if isinstance(n, ast.Assign) and any(isinstance(t_, ast.Name) and t_.id == expr.id for t_ in n.targets): return dict_literal_of(n.value, module_tree, depth + 1)
+            if isinstance(n, ast.AnnAssign) and isinstance(n.target, ast.Name) and n.target.id == expr.id and n.value is not None: return dict_literal_of(n.value, module_tree, depth + 1)
+        return None
+    if isinstance(expr, ast.Call) and isinstance(expr.func, ast.Name) and expr.func.id in ("dict", "OrderedDict") and len(expr.args) == 1 and not expr.keywords: return dict_literal_of(expr.args[0], module_tree, depth + 1)
+    if isinstance(expr, ast.Call) and isinstance(expr.func, ast.Attribute) and expr.func.attr == "copy" and not expr.args: return dict_literal_of(expr.func.value, module_tree, depth + 1)
+    return None
